@@ -13,8 +13,14 @@
 (*  Seeds {kind, digests, ok}    results of 20 consecutive seeds           *)
 (*  Search {cfg, start, tries, threads, found, seed, cols, run_cols,       *)
 (*          ok_seeds}            parallel seed search vs sequential runs   *)
+(*  Sel {keys, n, seed, res, again, distinct}   util.rs sort_by_random_sel *)
+(*      through the cfg-guarded hook: res = {none, sel = indices};         *)
+(*      again = the same call repeated; distinct = number of different     *)
+(*      results over 64 seeds                                              *)
+(*  Min {keys, seed, res, again, distinct}      sort_by_random_min         *)
+(*  Cmp {x, y, res}                             compare_some               *)
 (***************************************************************************)
-EXTENDS TraceKit, Peg
+EXTENDS TraceKit, Peg, Util
 
 VARIABLES l
 vars == <<l>>
@@ -43,8 +49,22 @@ SearchOK(ev) ==
           /\ ev.cols = ev.run_cols                                         \* exactly the matrix that seed produces
      ELSE ev.ok_seeds = <<>>                                               \* nothing only if every seed in range fails
 
+SetOf(res) == { res[t] : t \in 1..Len(res) }
+SelOK(ev) ==
+  /\ ev.o = "ok"
+  /\ SelResultOK(ev.keys, ev.n, ev.res.none, ev.res.sel)                                        \* n smallest, ties only at the cut
+  /\ ev.again = ev.res                                                         \* same seed, same result
+  /\ (Len(ev.keys) >= ev.n /\ Cardinality(SelOutcomes(ev.keys, ev.n)) >= 2) => ev.distinct >= 2   \* seeds explore the ties
+MinOK(ev) ==
+  /\ ev.o = "ok"
+  /\ MinResultOK(ev.keys, ev.res)
+  /\ ev.again = ev.res
+  /\ Cardinality(MinOutcomes(ev.keys)) >= 2 => ev.distinct >= 2
+CmpOK(ev) == ev.o = "ok" /\ ev.res = CompareSome(ev.x, ev.y)
+
 EvOK(ev) == CASE ev.e = "Mkn" -> MknOK(ev) [] ev.e = "Peg" -> PegOK(ev) [] ev.e = "Twice" -> TwiceOK(ev)
-              [] ev.e = "Seeds" -> SeedsOK(ev) [] ev.e = "Search" -> SearchOK(ev) [] OTHER -> FALSE
+              [] ev.e = "Seeds" -> SeedsOK(ev) [] ev.e = "Search" -> SearchOK(ev)
+              [] ev.e = "Sel" -> SelOK(ev) [] ev.e = "Min" -> MinOK(ev) [] ev.e = "Cmp" -> CmpOK(ev) [] OTHER -> FALSE
 
 Init == l = 1
 Step == /\ l <= NRec
